@@ -1,3 +1,6 @@
+pub mod events;
+pub mod frame;
+pub mod layouts;
 pub mod sc;
 
 use crate::report::Run;
@@ -12,6 +15,18 @@ pub fn run_check(id: &str, run: &mut Run) -> bool {
     match id {
         "C01" => sc::c01(run),
         "C02" => sc::c02(run),
+        "C03" => layouts::c03(run),
+        "C09" => layouts::c09(run),
+        "C10" => layouts::c10(run),
+        "C11" => layouts::c11(run),
+        "C12" => layouts::c12(run),
+        "C15" => layouts::c15(run),
+        "C16" => layouts::c16(run),
+        "C17" => layouts::c17(run),
+        "C04" => events::c04(run),
+        "C14" => events::c14(run),
+        "C05" => frame::c05(run),
+        "C06" => frame::c06(run),
         "C07" => sc::c07(run),
         "C13" => sc::c13(run),
         "C19" => sc::c19(run),
@@ -22,5 +37,5 @@ pub fn run_check(id: &str, run: &mut Run) -> bool {
 
 /// Re-run exactly one saved case through the plain evaluators (no proptest, no fuzzer).
 pub fn replay_case(_id: &str, run: &mut Run, case: &Value) -> bool {
-    sc::replay(run, case)
+    sc::replay(run, case) || frame::replay(run, case) || events::replay(run, case) || layouts::replay(run, case)
 }
